@@ -325,13 +325,18 @@ class C27(Property):
                 except Exception as e:  # noqa
                     ctx.violation(f"structure-factor-raises-{how}-{c}-centering", case, {"error": repr(e)})
         elif kind == "translation":
-            sf = build_sf(case, "P")
-            _, arr = F_dict(sf)
-            scale = max(np.abs(arr).max(), 1e-30)
-            shifted = dict(case, scaled=[[p[a] + n[a] for a in range(3)] for p, n in zip(case["scaled"], case["shifts"])])
-            _, arr2 = F_dict(build_sf(shifted, "P"))
+            import abtem
+
+            # float64 precision: positions and phases are then exact to 1e-16·|p·h|, so the tolerance can be as tight as the
+            # extinction tolerance scale (float32 positions would need ~5e-4·max|F|)
+            with abtem.config.set({"precision": "float64"}):
+                sf = build_sf(case, "P")
+                _, arr = F_dict(sf)
+                scale = max(np.abs(arr).max(), 1e-30)
+                shifted = dict(case, scaled=[[p[a] + n[a] for a in range(3)] for p, n in zip(case["scaled"], case["shifts"])])
+                _, arr2 = F_dict(build_sf(shifted, "P"))
             d = float(np.abs(arr2 - arr).max())
-            if d > 5e-4 * scale:
+            if d > 1e-9 * scale:
                 ctx.violation("lattice-translation-changes-structure-factor", case, {"max diff": d, "max |F|": scale})
         elif kind == "potential":
             sfa = build_sf(case, "P").build(lazy=False)
